@@ -1,10 +1,11 @@
 #!/bin/bash
 # tryseed.sh <patch file> <PROP>...: apply a seeded change to /repo's working tree, run the quick checks, undo it straight afterwards
 patch=$1; shift
+trap 'git -C /repo checkout -- . 2>/dev/null' EXIT INT TERM
 cd /repo && git apply "$patch" || exit 2
 cd /verif
 for p in "$@"; do
-  out=$(VERIF_CACHE=/tmp/bva-verif-cache bin/check $p 2>/dev/null); rc=$?
+  out=$(VERIF_CACHE=/tmp/bva-verif-cache timeout 1500 bin/check $p 2>/dev/null); rc=$?
   echo "[$p] rc=$rc $(echo "$out" | grep -c '^VIOLATION') violation line(s), $(echo "$out" | grep -c '^UNDECIDED') undecided"
   echo "$out" | grep "^VIOLATION" | head -3
 done
